@@ -2,10 +2,12 @@
 (* Scenario generator for C20 (i): every string of length <= MaxLen over Alphabet (code points), plus case /
    separator variants of every keyword.  One line "SCEN [code points]" per string. *)
 EXTENDS Naturals, Sequences, FiniteSets, TLC, Json, NamingConsts
-CONSTANTS Alphabet, MaxLen
+CONSTANTS Alphabet, MaxLen,
+          UAlphabet, UMaxLen   \* second stratum: representatives of Unicode classes (see docs/C20_NOTES.md), shorter strings
 VARIABLES s, done
 
 Strings == UNION {[1..k -> Alphabet] : k \in 0..MaxLen}
+UStrings == UNION {[1..k -> UAlphabet] : k \in 1..UMaxLen}
 Up(c) == IF c \in 97..122 THEN c - 32 ELSE c
 Lo(c) == IF c \in 65..90 THEN c + 32 ELSE c
 UpperOf(k) == [i \in 1..Len(k) |-> Up(k[i])]
@@ -17,6 +19,7 @@ KeywordVariants ==
 
 AsTuple(f) == SubSeq(f, 1, Len(f))
 Init == /\ \/ s \in Strings
+           \/ s \in UStrings
            \/ s \in KeywordVariants
         /\ done = FALSE
 Emit == /\ ~done
